@@ -246,7 +246,8 @@ func c14CheckWith(prog *gojq.Code, s, re string, flags any) string {
 	return ""
 }
 
-var c14Index = MustCompile(`. as $s | [length, (explode | length), [range(-$n - 1; $n + 2) as $i | range(-$n - 1; $n + 2) as $j | .[$i:$j]], [range(-$n - 1; $n + 2) as $i | .[$i]?], [.[:$n], .[$n:], .[1:], .[:-1]]]`, gojq.WithVariables([]string{"$n"}))
+var c14Index = MustCompile(`. as $s | [length, (explode | length), [range(-$n - 1; $n + 2) as $i | range(-$n - 1; $n + 2) as $j | .[$i:$j]], [range(-$n - 1; $n + 2) as $i | .[$i]?], [.[:$n], .[$n:], .[1:], .[:-1]],
+	[range(-$n - 1; $n + 2) as $i | range(-$n - 1; $n + 2) as $j | .[$i:$j]?], ([range(-$n - 1; $n + 2) as $i | (.[$i:]?, .[:$i]?, .[($i, 0):(1, $i)]?)] == [range(-$n - 1; $n + 2) as $i | (.[$i:], .[:$i], .[($i, 0):(1, $i)])])]`, gojq.WithVariables([]string{"$n"}))
 var c14Indices = MustCompile(`[indices($t), index($t), rindex($t)]`, gojq.WithVariables([]string{"$t"}))
 
 func runeSlice(rs []rune, i, j int) string {
@@ -283,6 +284,13 @@ func c14CheckIndexing(s string) string {
 			}
 			k++
 		}
+	}
+	// the optional forms (.[i:j]? is compiled as a binding of the bounds around a try) give the same
+	if !univ.Equal(res[5], res[2]) {
+		return fmt.Sprintf(".[i:j]? differs from .[i:j]: %s vs %s", head(univ.Canon(res[5]), 200), head(univ.Canon(res[2]), 200))
+	}
+	if res[6] != true {
+		return ".[i:]?, .[:i]? or .[(i, 0):(1, i)]? differs from the same slice without ?"
 	}
 	for idx, i := 0, -n-1; i <= n+1; i, idx = i+1, idx+1 {
 		var want any
